@@ -10,6 +10,7 @@ import (
 var checks = map[string]func(*core.Ctx) int{
 	"C01": core.CheckC01,
 	"C02": core.CheckC02,
+	"C03": core.CheckC03,
 	"C04": core.CheckC04,
 	"C05": core.CheckC05,
 	"C06": core.CheckC06,
@@ -17,6 +18,7 @@ var checks = map[string]func(*core.Ctx) int{
 	"C08": core.CheckC08,
 	"C09": core.CheckC09,
 	"C10": core.CheckC10,
+	"C13": core.CheckC13,
 }
 
 func main() {
